@@ -1,31 +1,43 @@
 ---------------------------- MODULE H_CondTrace ----------------------------
 EXTENDS H_Cond, Sequences, TLC, Json, IOUtils
 TraceLog == ndJsonDeserialize(IOEnv.TRACE)
-VARIABLE l
-tvars == <<holder, waiting, woken, expired, dl, l>>
+VARIABLES l, psig   \* psig: an unlocked signal / broadcast in progress: [t, kind, done] or NoSig
+NoSig == [t |-> 0, kind |-> "none", done |-> FALSE]
+tvars == <<holder, waiting, woken, expired, dl, l, psig>>
 Ev == TraceLog[l]
 More == l <= Len(TraceLog)
 Consume == l' = l + 1
-TInit == HInit /\ l = 1
+TInit == HInit /\ l = 1 /\ psig = NoSig
 TReset == More /\ Ev.e = "Reset" /\ Consume /\ holder' = 0 /\ waiting' = {} /\ woken' = {} /\ expired' = {}
-          /\ dl' = [t \in Threads |-> NoDl]
+          /\ dl' = [t \in Threads |-> NoDl] /\ psig' = NoSig
 TSkip == More /\ Ev.e \in {"Cond"} /\ Consume /\ UNCHANGED hvars
 TAcq == More /\ Ev.e = "Acq" /\ Consume /\ Acq(Ev.t)
 TRel == More /\ Ev.e = "Rel" /\ Consume /\ Rel(Ev.t)
 TWaitCall == More /\ Ev.e = "WaitCall" /\ Consume /\ WaitCall(Ev.t, Ev.timed = 1, Ev.dl)
-TSignal == More /\ Ev.e = "Signal" /\ Consume /\ Signal(Ev.t)
-TBcast == More /\ Ev.e = "Bcast" /\ Consume /\ Bcast(Ev.t)
+TSignal == More /\ Ev.e = "Signal" /\ Consume /\ Signal(Ev.t, "nolock" \notin DOMAIN Ev)
+TBcast == More /\ Ev.e = "Bcast" /\ Consume /\ Bcast(Ev.t, "nolock" \notin DOMAIN Ev)
 \* h = the harness-side count of callers that believe they hold the mutex
 TWaitRet == More /\ Ev.e = "WaitRet" /\ Consume /\ Ev.h = 1 /\ WaitRet(Ev.t, Ev.ok = 1, Ev.now)
 \* unlogged time-out, only when the next record needs it
 \* (a waiter may also have given up just before a signal/broadcast took effect)
 TExpire == /\ More /\ UNCHANGED l
            /\ \/ (Ev.e = "WaitRet" /\ Ev.ok = 0 /\ Expire(Ev.t))
-              \/ (Ev.e \in {"Signal", "Bcast"} /\ \E t \in Threads : Expire(t))
+              \/ ((Ev.e \in {"Signal", "Bcast"} \/ (psig.kind # "none" /\ ~psig.done)) /\ \E t \in Threads : Expire(t))
 TCondEnd == More /\ Ev.e = "CondEnd" /\ Consume /\ waiting = {} /\ woken = {} /\ expired = {} /\ holder = 0
             /\ UNCHANGED hvars
 TEnd == More /\ Ev.e = "End" /\ Consume /\ UNCHANGED hvars
-TNext == TReset \/ TSkip \/ TAcq \/ TRel \/ TWaitCall \/ TSignal \/ TBcast \/ TWaitRet \/ TExpire \/ TCondEnd \/ TEnd
+\* A signal / broadcast sent WITHOUT the mutex takes effect somewhere between its call and its
+\* return (SigCall ... SigRet): waiters that start to wait meanwhile may or may not be reached.
+TSigCall == More /\ Ev.e = "SigCall" /\ Consume /\ psig = NoSig /\ psig' = [t |-> Ev.t, kind |-> Ev.kind, done |-> FALSE] /\ UNCHANGED hvars
+TSigLin == /\ More /\ UNCHANGED l /\ psig.kind # "none" /\ ~psig.done /\ psig' = [psig EXCEPT !.done = TRUE]
+           \* ("maybe": a signal sent at a moment when the sender cannot know whether the newest
+           \*  waiter is on the list already: it may reach a waiter or nobody)
+           /\ CASE psig.kind = "signal" -> Signal(psig.t, FALSE)
+                [] psig.kind = "maybe" -> (Signal(psig.t, FALSE) \/ UNCHANGED hvars)
+                [] OTHER -> Bcast(psig.t, FALSE)
+TSigRet == More /\ Ev.e = "SigRet" /\ Consume /\ psig.t = Ev.t /\ psig.done /\ psig' = NoSig /\ UNCHANGED hvars
+TOld == TReset \/ TSkip \/ TAcq \/ TRel \/ TWaitCall \/ TSignal \/ TBcast \/ TWaitRet \/ TExpire \/ TCondEnd \/ TEnd
+TNext == (TOld /\ (Ev.e = "Reset" \/ UNCHANGED psig)) \/ TSigCall \/ TSigLin \/ TSigRet
 TSpec == TInit /\ [][TNext]_tvars
 NotAccepted == l <= Len(TraceLog)
 TrackMax == TLCSet(1, IF TLCGet(1) < l THEN l ELSE TLCGet(1))
